@@ -247,13 +247,22 @@ Section GenTie.
     steq g (gen_integrateAndNormalize K (env_w g w) m) (normalize K pos g (integrate K g s)).
   Proof. intros H. unfold gen_integrateAndNormalize. cbv zeta. apply gen_normalize_sim, gen_integrate_sim, H. Qed.
 
+  (** the two projections are computed from the data alone and stored in different members: they commute
+      (so the source may refresh them in either order before integrate()) *)
+  Lemma updateXY_comm s : updateY K g (updateX K g s) = updateX K g (updateY K g s).
+  Proof. reflexivity. Qed.
+
+  Ltac refresh_tac H :=
+    first [ apply gen_integrate_sim, gen_updateY_sim, gen_updateX_sim, H
+          | rewrite updateXY_comm; apply gen_integrate_sim, gen_updateX_sim, gen_updateY_sim, H ].
+
   (** the refresh sequence of the constructor and of operator= is the model's [refresh] *)
   Theorem gen_ctor_refresh_sim m s : steq g m s ->
     steq g (gen_ctor_refresh K (env_w g w) m) (refresh K g s).
-  Proof. intros H. unfold gen_ctor_refresh, refresh. apply gen_integrate_sim, gen_updateY_sim, gen_updateX_sim, H. Qed.
+  Proof. intros H. unfold gen_ctor_refresh, refresh. refresh_tac H. Qed.
   Theorem gen_assign_refresh_sim m s : steq g m s ->
     steq g (gen_assign_refresh K (env_w g w) m) (refresh K g s).
-  Proof. intros H. unfold gen_assign_refresh, refresh. apply gen_integrate_sim, gen_updateY_sim, gen_updateX_sim, H. Qed.
+  Proof. intros H. unfold gen_assign_refresh, refresh. refresh_tac H. Qed.
 
   (** ** operation histories: the generated operations simulate [run_ops] *)
   Definition gen_run_op (E : env K) (m : mst K) (op : Z) : mst K :=
